@@ -108,6 +108,35 @@ def handleC43 (c : Case) : Verdict := Id.run do
     return .differ "callbacks" s!"model=[{showLog model.1}] {detail}"
   if outcomeStr model.2 != implRes then
     return .differ "result" s!"model={outcomeStr model.2} {detail}"
+  -- LoadBlob on its own (repo substream): `copy <idx> <stored length> <state>` in index order, `lb <idx> …`
+  let mut lbLabels : List String := []
+  for r in c.findAll "lb" do
+    let idx := r.getD 1 ""
+    let copies : List StoredCopy := (c.findAll "copy").toList.filter (·.getD 1 "" == idx) |>.map fun cr =>
+      { len := (cr.getD 2 "").toNat?.getD 0, state := if cr.getD 3 "" == "good" then Copy.good 1 else Copy.damaged }
+    let lbDetail := s!"blob {idx} copies(len,state)={copies.map fun cp => (cp.len, cp.state == Copy.good 1)} result={r.getD 2 ""} {(unhexStr (r.getD 3 "-")).getD ""}"
+    let m := loadBlobSized copies 0
+    match r.getD 2 "" with
+    | "ok" =>
+      if r.getD 3 "" != "1" then return .specfalse "C43:loadblob:wrong-plaintext" lbDetail
+      if m.isNone then return .differ "loadblob" s!"model fails, impl ok: {lbDetail}"
+    | "err" =>
+      if copies.any (fun cp => cp.state == Copy.good 1) then
+        let shorterFirst := match copies with
+          | a :: _ => copies.any (fun cp => cp.state == Copy.good 1 && cp.len > a.len)
+          | [] => false
+        return .specfalse (if shorterFirst then "C43:loadblob:error-despite-longer-intact-copy" else "C43:loadblob:error-despite-intact-copy") lbDetail
+      if m.isSome then return .differ "loadblob" s!"model ok, impl fails: {lbDetail}"
+    | _ => return .specfalse "C43:panic" lbDetail
+    if copies.length > 1 then
+      lbLabels := if lbLabels.contains "lb-multi-copy" then lbLabels else lbLabels ++ ["lb-multi-copy"]
+      match copies with
+      | a :: rest =>
+        if a.state != Copy.good 1 && rest.any (fun cp => cp.state == Copy.good 1 && cp.len > a.len) && !lbLabels.contains "lb-short-damaged-first" then
+          lbLabels := lbLabels ++ ["lb-short-damaged-first"]
+        if a.state != Copy.good 1 && rest.any (fun cp => cp.state == Copy.good 1 && cp.len < a.len) && !lbLabels.contains "lb-long-damaged-first" then
+          lbLabels := lbLabels ++ ["lb-long-damaged-first"]
+      | [] => pure ()
   let parts := if notIn.isEmpty && !blobs.isEmpty then (partition mc mu blobs).1 else []
   let mut labels : List String := [c.stream, "res-" ++ implRes] ++ (if c.stream == "pack" then [(c.find "kind").map (·.getD 1 "-") |>.getD "-"] else [])
   if c.stream == "pack" then
@@ -126,6 +155,6 @@ def handleC43 (c : Case) : Verdict := Id.run do
   if !noDlFail then labels := labels ++ ["download-failure"]
   if !fbFn then labels := labels ++ ["no-fallback"]
   if propagate then labels := labels ++ ["cb-propagates"]
-  return .agree (!implLog.isEmpty) labels
+  return .agree (!implLog.isEmpty) (labels ++ lbLabels)
 
 def main : IO Unit := mainLoop handleC43
